@@ -121,7 +121,10 @@ class C20:
                  "is requested, is a remote directory, has a stale refresh, or (no local id) an auto-sync predicate accepts its remote path; "
                  "the result is intersected with the stored pending set", expect_min=6)
         f = self.st.getters["_changeset"]
-        loops = [lp for lp in ctx.own_nodes(f) if isinstance(lp, ast.For) and any(isinstance(x, ast.Attribute) and x.attr == "_changeset_storage" for x in ast.walk(lp.iter))]
+        snap = {n.targets[0].id for n in ctx.own_nodes(f) if isinstance(n, ast.Assign) and isinstance(n.targets[0], ast.Name)
+                and any(isinstance(x, ast.Attribute) and x.attr == "_changeset_storage" for x in ast.walk(n.value))}
+        loops = [lp for lp in ctx.own_nodes(f) if isinstance(lp, ast.For) and any((isinstance(x, ast.Attribute) and x.attr == "_changeset_storage") or
+                                                                                   (isinstance(x, ast.Name) and x.id in snap) for x in ast.walk(lp.iter))]
         if not loops:
             raise AnalysisError("SmartSyncState._changeset: loop over the stored pending set not found")
         ent = loops[0].target.id
@@ -235,6 +238,17 @@ class C20:
             coll = lp.iter.id
             adds = [n for n in ctx.own_nodes(f) if isinstance(n, ast.Call) and pat.match("%s.add($X)" % coll, n) is not None]
             inits = [n for n in ctx.own_nodes(f) if isinstance(n, ast.Assign) and isinstance(n.targets[0], ast.Name) and n.targets[0].id == coll]
+
+            def comp_of_pushes(v):
+                # {x for x in map(self._smart_unsync_ent, C) if ...}   or   {self._smart_unsync_ent(e) for e in C}
+                if not isinstance(v, (ast.SetComp, ast.ListComp)) or len(v.generators) != 1:
+                    return False
+                gen = v.generators[0]
+                if isinstance(v.elt, ast.Name) and isinstance(gen.target, ast.Name) and v.elt.id == gen.target.id:
+                    return pat.match("map(self._smart_unsync_ent, $C)", gen.iter) is not None
+                return pat.match("self._smart_unsync_ent($E)", v.elt) is not None
+            if not adds and inits and all(comp_of_pushes(i.value) for i in inits):
+                return True
             if not adds or not all(isinstance(i.value, ast.Call) and pat.match("set()", i.value) is not None for i in inits):
                 return False
             for a in adds:
